@@ -22,6 +22,8 @@ class FaceSpanningTree(SpanningTree):
             self.root = starting_face
         else:
             self.root = randint(0,len(self.mesh.faces)-1)
+        if not (0 <= self.root < len(self.mesh.faces)):
+            raise IndexError("starting_face {} is not a face of the mesh".format(self.root))
         
         if forbidden_edges is None:
             self.forbidden_edges : set = set()
